@@ -1,6 +1,102 @@
 From Coq Require Import List ZArith Bool.
 From LTV.C13 Require Import Model Proofs.
+Import ListNotations.
+Open Scope Z_scope.
 
 Theorem params_ok_now : Proofs.params_ok = true.
 Proof. exact Proofs.params_ok_now. Qed.
 Print Assumptions params_ok_now.
+
+Theorem backoff_table :
+  map backoff [1; 2; 3; 4; 5; 6; 7; 8; 9; 100] = [5; 10; 20; 40; 80; 160; 300; 300; 300; 300].
+Proof. exact Proofs.backoff_table. Qed.
+Print Assumptions backoff_table.
+
+Theorem one_in_flight : forall t0 groups ops r, In r (log (run (init t0 groups) ops)) ->
+  t_en (r_pre r) = true /\ r_repl r = t_busy (r_pre r) /\
+  (t_busy (r_pre r) = true -> r_ev r <> EvNone /\ r_ev r <> t_ev (r_pre r)).
+Proof. exact Proofs.one_in_flight. Qed.
+Print Assumptions one_in_flight.
+
+Theorem started_carried : forall t0 groups ops r, In r (log (run (init t0 groups) ops)) ->
+  f_start (r_fl r) = true -> r_src r <> SrcUpdate -> r_ev r = EvStarted.
+Proof. exact Proofs.started_carried. Qed.
+Print Assumptions started_carried.
+
+Theorem start_flag_persists : forall s o,
+  f_start (fl s) = true -> f_start (fl (step s o)) = true \/
+  match o with
+  | OSendStop | OSendCompleted | OStop false => True
+  | OSuccess id _ _ => f_active (fl s) = true /\ exists t, find_id (trs s) id = Some t /\ t_busy t = true
+  | _ => False
+  end.
+Proof. exact Proofs.start_flag_persists. Qed.
+Print Assumptions start_flag_persists.
+
+Theorem started_carried_refuted :
+  exists t0 groups ops r, In r (log (run (init t0 groups) ops)) /\
+    f_start (r_fl r) = true /\ r_ev r = EvNone.
+Proof. exact Proofs.started_carried_refuted. Qed.
+Print Assumptions started_carried_refuted.
+
+Theorem completed_carried : forall t0 groups ops r, In r (log (run (init t0 groups) ops)) ->
+  f_completed (r_fl r) = true -> r_src r <> SrcUpdate -> r_ev r = EvCompleted.
+Proof. exact Proofs.completed_carried. Qed.
+Print Assumptions completed_carried.
+
+Theorem completed_carried_refuted :
+  exists t0 groups ops r, In r (log (run (init t0 groups) ops)) /\
+    f_completed (r_fl r) = true /\ r_ev r = EvNone.
+Proof. exact Proofs.completed_carried_refuted. Qed.
+Print Assumptions completed_carried_refuted.
+
+(* partial: missing is the invariant that, when send_stop_event is always followed by disable
+   (op OStop, the only use in download.cc), the second disjunct cannot occur *)
+Theorem stopped_only_on_stop_and_in_use_partial : forall t0 groups ops r, In r (log (run (init t0 groups) ops)) ->
+  r_ev r = EvStopped ->
+  (r_src r = SrcStop /\ is_in_use (r_pre r) = true) \/
+  (r_src r = SrcTimer /\ f_stop (r_fl r) = true /\ f_active (r_fl r) = true).
+Proof. exact Proofs.stopped_sites. Qed.
+Print Assumptions stopped_only_on_stop_and_in_use_partial.
+
+Theorem backoff_respected : forall t0 groups ops r, In r (log (run (init t0 groups) ops)) ->
+  r_src r = SrcTimer -> t_fc (r_pre r) <> 0 ->
+  t_ftl (r_pre r) + (if min_min <? t_mi (r_pre r) then t_mi (r_pre r) else backoff (t_fc (r_pre r))) <= r_time r / usec.
+Proof. exact Proofs.backoff_respected. Qed.
+Print Assumptions backoff_respected.
+
+Theorem success_interval_respected : forall t0 groups ops r, In r (log (run (init t0 groups) ops)) ->
+  r_src r = SrcTimer -> t_fc (r_pre r) = 0 -> t_sc (r_pre r) <> 0 ->
+  t_stl (r_pre r) + Z.min (t_ni (r_pre r)) (Z.max (t_mi (r_pre r)) promisc_floor) <= r_time r / usec.
+Proof. exact Proofs.success_interval_respected. Qed.
+Print Assumptions success_interval_respected.
+
+Theorem min_interval_respected_when_sane : forall t0 groups ops r, In r (log (run (init t0 groups) ops)) ->
+  r_src r = SrcTimer -> t_fc (r_pre r) = 0 -> t_sc (r_pre r) <> 0 ->
+  t_mi (r_pre r) <= t_ni (r_pre r) ->
+  t_stl (r_pre r) + t_mi (r_pre r) <= r_time r / usec.
+Proof. exact Proofs.min_interval_respected_when_sane. Qed.
+Print Assumptions min_interval_respected_when_sane.
+
+Theorem min_interval_respected_refuted :
+  exists t0 groups ops r, In r (log (run (init t0 groups) ops)) /\
+    r_src r = SrcTimer /\ t_fc (r_pre r) = 0 /\ t_sc (r_pre r) <> 0 /\
+    t_mi (r_pre r) <= max_min /\
+    r_time r / usec < t_stl (r_pre r) + t_mi (r_pre r).
+Proof. exact Proofs.min_interval_respected_refuted. Qed.
+Print Assumptions min_interval_respected_refuted.
+
+(* partial: the setters clamp; missing is the (easy) state invariant that every reachable
+   tracker's intervals are initial values or setter results *)
+Theorem interval_clamps_partial : forall v,
+  min_normal <= set_normal_interval v <= max_normal /\ min_min <= set_min_interval v <= max_min.
+Proof. exact Proofs.interval_clamps. Qed.
+Print Assumptions interval_clamps_partial.
+
+Theorem tier_order_refuted :
+  exists t0 groups ops r u, In r (log (run (init t0 groups) ops)) /\
+    r_src r = SrcTimer /\ f_promisc (r_fl r) = false /\ f_requesting (r_fl r) = false /\
+    In u (r_trs r) /\ Nat.ltb (t_group u) (t_group (r_pre r)) = true /\
+    t_en u = true /\ t_busy u = false /\ t_fc u = 0.
+Proof. exact Proofs.tier_order_refuted. Qed.
+Print Assumptions tier_order_refuted.
